@@ -34,7 +34,15 @@ type vcNode struct {
 	data  []byte
 	meta  *raft.SnapshotMeta // content of a meta.json written through snapshot.writeMeta
 	sc    *sidecar.Sidecar   // content of a sidecar written through sidecar.WriteFile
+	fp    *vcFP              // content of a clean-snapshot marker
 	mtime int64
+}
+
+// vcFP is the content of the clean-snapshot marker: the fingerprint of the database file.
+type vcFP struct {
+	mtime int64
+	size  int64
+	crc   uint32
 }
 
 type vcHandle struct {
@@ -644,8 +652,15 @@ func vcCRC32ReaderSum(c *rsum.CRC32Reader) uint32 { return vcCRCOf(vcFS.crcrs[c]
 // (*Store).createSnapshotFingerprint: the clean-snapshot marker (its content and the fast restart
 // it enables are outside C04): writes the marker file, fails when its directory does not exist.
 func vcCreateSnapshotFingerprint(s *Store) error {
-	if _, err := vcCreateFile(s.cleanSnapshotPath); err != nil {
+	d, ok := vcFS.nodes[s.dbPath]
+	if !ok {
+		return vcErrNotExist
+	}
+	n, err := vcCreateFile(s.cleanSnapshotPath)
+	if err != nil {
 		return err
 	}
+	n.fp = &vcFP{mtime: d.mtime, size: int64(len(d.data)), crc: vcCRCOf(d.data)}
+	n.data = []byte("{fingerprint}")
 	return nil
 }
